@@ -3,6 +3,7 @@ CONSTANTS
   Alphabet <- Alpha14
   MaxLen = 2
   StepLen = 2
+  LexLen = 2
   OptSets <- EscOptSets
 INVARIANT Inverse
 INVARIANT NoEarlyClose
